@@ -80,7 +80,10 @@ def run(ctx):
 
 
 # sensitivity pack (thorough tier): each seeded edit must be reported by the named rule instance
-MUTANTS = [{'name': 'size-guard-dropped', 'file': 'src/inscriptions/inscription.rs', 'old': '        if value.len() + n > max {\n          return None;\n        }\n', 'new': '', 'expect': ('R28.1', 'properties_cbor', 'dominated by the size guard')}]
+MUTANTS = [
+  {'name': 'seeded-C28-a', 'patch': 'C28-a/patch.diff', 'expect': ('R28.3', 'Traits as minicbor::Decode>::decode', 'alloc:with_capacity')},
+  {'name': 'seeded-C28-b', 'patch': 'C28-b/patch.diff', 'expect': ('R28.1', 'properties_cbor', 'size guard')},
+{'name': 'size-guard-dropped', 'file': 'src/inscriptions/inscription.rs', 'old': '        if value.len() + n > max {\n          return None;\n        }\n', 'new': '', 'expect': ('R28.1', 'properties_cbor', 'dominated by the size guard')}]
 
 
 # behaviour-preserving edits (thorough tier): the rules must stay silent on every one of them
